@@ -83,6 +83,10 @@ pub fn run(a: &Args) -> Report {
                     bad = true;
                     break 'outer;
                 }
+                if semi.num_tuples() > 4000 {
+                    rep.count("histories_truncated_large_db", 1);
+                    break 'outer;
+                }
                 let d1 = canon(&semi);
                 let d2 = canon(&naive);
                 if o1.kind() != o2.kind() || d1 != d2 {
